@@ -370,10 +370,17 @@ def compare(driver, sc: dict, sched_seed: int):
             status = outcome
         if action[0] == "reply":
             # asynchronous requests the simulator made after the release come first in the block
-            pre = [l for l in (async_line(e) for e in events) if l and e_before_stepped(e, events)]
-            for l in pre:
+            pre = [l for l in (async_line(e) for e in events) if l]
+            refused = status.startswith("failed ScenarioError async-refused") or status.startswith("failed SimulationError event-not-rt")
+            for j, l in enumerate(pre):
                 lines.append(l)
-                impl_obs.append(None)
+                if refused and j == len(pre) - 1:
+                    # the request raised inside the simulator's step: the step reply never reaches mosaik
+                    impl_obs.append(canon_obs(status, [e for e in events if e[0] == "begin" or e[0] == "done"]))
+                else:
+                    impl_obs.append(None)
+            if refused and pre:
+                continue
             lines.extend(reply_lines(action))
         elif action[0] == "tick":
             lines.append(f"act tick {int(round(action[1]))}")
@@ -465,6 +472,14 @@ def gen_scenario(rng: random.Random, groups: bool = True, async_req: bool = Fals
         sattr = rng.choice([2, 3])
         dattr = rng.choice([0, 1])
         seid, deid = rng.randrange(2), rng.randrange(2)
+        if connects and rng.random() < 0.3:
+            # several sources feeding the same destination attribute
+            prev = rng.choice(connects)
+            if prev["src"] != s:
+                d, deid, dattr = prev["dst"], prev["deid"], prev["dattr"]
+                kind = "plain" if kind == "weak" else kind
+                if s == d and rng.random() < 0.9:
+                    continue
         key = (s, seid, d, deid, dattr)
         if key in used:
             continue
@@ -484,6 +499,9 @@ def gen_scenario(rng: random.Random, groups: bool = True, async_req: bool = Fals
           "max_loop": rng.choice([2, 3, 4, 100]) if use_groups else 100,
           "lazy": rng.random() < 0.5, "cache": rng.random() < 0.5, "beh_seed": rng.randrange(10 ** 9),
           "sparse_persistent": rng.random() < 0.2, "future_outputs": rng.random() < 0.3}
+    if async_req and rng.random() < 0.25:
+        a, b = rng.sample(range(n), 2)
+        sc["extra_async"] = [{"sim": a, "n": rng.randrange(0, 3), "kind": rng.choice(["set_data", "get_data"]), "target": b}]
     if faults and rng.random() < 0.8:
         sc["fault"] = {"sim": rng.randrange(n), "n": rng.randrange(0, 4),
                        "kind": rng.choice(["float", "str", "bool", "negative", "equal", "past", "none", "out_time_past"])}
